@@ -52,7 +52,9 @@ def run(ctx, rep):
         kw = {k.arg: k.value for k in sorts[0].keywords}
         lam = kw.get("key")
         asc = "reverse" not in kw or utext(kw["reverse"]) == "False"
-        good = isinstance(lam, ast.Lambda) and utext(lam.body) == "%s[0]" % lam.args.args[0].arg and asc and not sorts[0].args
+        first_elem = (isinstance(lam, ast.Lambda) and utext(lam.body) == "%s[0]" % lam.args.args[0].arg) or (
+            lam is not None and utext(lam) in ("operator.itemgetter(0)", "itemgetter(0)"))
+        good = first_elem and asc and not sorts[0].args
         good = good and [utext(a) for a in pops[0].args] == ["0"]
         ns = [n for n in cfg.live_nodes() if sorts[0] in walk_calls(n.exprs)][0]
         np_ = [n for n in cfg.live_nodes() if pops[0] in walk_calls(n.exprs)][0]
@@ -73,23 +75,46 @@ def run(ctx, rep):
         good = good and cfg.dominates(np_.id, npr.id) and not [g for g, pol in cfg.guards(npr.id) if utext(g.exprs[0]) not in (
             "cycles", "event_group", "len(streams) > 1", "not self.clients.simulated", "self.clients.simulated")]
     rep.check(good, "R1", key(f, None, "the taken book is processed exactly once, unconditionally"), f, procs[0] if procs else None)
-    good = len(nexts) == 1 and len(names) == 3 and utext(nexts[0].args[0]) == names[2]
+    good = len(nexts) == 1 and len(names) == 3 and utext(nexts[0].args[0]) == names[2] and len(apps) == 1
     if good:
-        tr = [t for t in walk_nodes(w.body, ast.Try) if nexts[0] in walk_calls(t.body)]
-        good = len(tr) == 1 and len(tr[0].handlers) == 1 and utext(tr[0].handlers[0].type) == "StopIteration" and \
-            [type(s).__name__ for s in tr[0].handlers[0].body] == ["Continue"]
+        from sa.kinds import expanded
+        nn = [n for n in cfg.live_nodes() if nexts[0] in walk_calls(n.exprs)][0]
+        na = [n for n in cfg.live_nodes() if apps[0] in walk_calls(n.exprs)][0]
+        whn = [n for n in cfg.live_nodes() if n.kind == "cond" and utext(n.exprs[0]) == "cycles"]
+        hs = [h for h in cfg.live_nodes() if h.kind == "except" and h.id in {m for l, m in nn.succ if l == "exc"}]
+        # exhausted: only StopIteration is caught, the handler leads back to the loop test without re-queueing
+        # (and without leaving the loop); otherwise the stream is re-queued
+        good = len(hs) == 1 and utext(hs[0].ast.type) == "StopIteration" and len(whn) == 1
+        if good:
+            r = cfg.reachable(hs[0].id, [whn[0].id])
+            good = na.id not in r and whn[0].id in cfg.reachable(hs[0].id) and \
+                not any(cfg.nodes[x].kind in ("return", "raise") or isinstance(getattr(cfg.nodes[x], "ast", None), ast.Break) for x in r)
+            nxt_ok = [m for l, m in nn.succ if l != "exc"]
+            good = good and all(cfg.all_paths_pass(m, whn[0].id, [na.id]) or m == na.id for m in nxt_ok)
     rep.check(good, "R1", key(f, None, "the stream is advanced once; an exhausted stream is dropped and the merge goes on"), f,
               nexts[0] if nexts else None, "a `break` on the first exhausted stream would drop the remaining books of the others")
-    good = len(apps) == 1
+    good = len(apps) == 1 and len(nexts) == 1 and len(names) == 3
     if good:
+        from sa.kinds import expanded
         a = apps[0].args[0]
         if isinstance(a, ast.Name):  # the triple may be built in a local first
             da = [s for s in walk_nodes(w.body, ast.Assign) if utext(s.targets[0]) == a.id]
             a = da[0].value if len(da) == 1 else a
         good = isinstance(a, ast.List) and len(a.elts) == 3 and utext(a.elts[1]) == names[1] and utext(a.elts[2]) == names[2]
-        ep = [s for s in walk_nodes(w.body, ast.Assign) if good and utext(s.targets[0]) == utext(a.elts[0])]
-        good = good and len(ep) == 1 and utext(ep[0].value) == "%s[0].publish_time_epoch" % names[1] and \
-            ep[0].lineno > nexts[0].lineno and ep[0].lineno < apps[0].lineno
+        if good:
+            # the epoch is the new head's: read from the book that next() has just delivered
+            e0 = a.elts[0]
+            if isinstance(e0, ast.Name):
+                ep = [s for s in walk_nodes(w.body, ast.Assign) if utext(s.targets[0]) == e0.id]
+                e0 = ep[0].value if len(ep) == 1 else e0
+            nn = [n for n in cfg.live_nodes() if nexts[0] in walk_calls(n.exprs)][0]
+            na = [n for n in cfg.live_nodes() if apps[0] in walk_calls(n.exprs)][0]
+            asg_b = isinstance(nn.ast, ast.Assign) and utext(nn.ast.targets[0]) == names[1]
+            good = utext(e0) == "%s[0].publish_time_epoch" % names[1] and asg_b and cfg.dominates(nn.id, na.id)
+            eps = [n for n in cfg.live_nodes() if n.kind == "stmt" and isinstance(n.ast, ast.Assign) and isinstance(a.elts[0], ast.Name)
+                   and utext(n.ast.targets[0]) == utext(a.elts[0]) and n.id in cfg.reachable(nn.id, [na.id])
+                   and n.ast in walk_nodes(w.body, ast.Assign)]
+            good = good and (not isinstance(a.elts[0], ast.Name) or len(eps) == 1)
     rep.check(good, "R1", key(f, None, "the stream is re-queued under the epoch of its NEW head"), f, apps[0] if apps else None)
     rep.check(not loop_body_exits_early(w), "R1", key(f, None, "the merge runs until every stream is exhausted"), f)
     muts = sorted({call_name(c) for c in body_calls if recv_text(c) == "cycles"} - {"sort", "pop", "append"})
@@ -105,9 +130,14 @@ def run(ctx, rep):
         asg = {utext(s.targets[0]): utext(s.value) for s in walk_nodes(init[0].body, ast.Assign)}
         good = len(ap0) == 1 and len(nx0) == 1 and isinstance(ap0[0].args[0], ast.List) and len(ap0[0].args[0].elts) == 3
         if good:
-            e_, b_, g_ = [utext(x) for x in ap0[0].args[0].elts]
-            good = asg.get(g_) == "%s.create_generator()()" % utext(init[0].target) and asg.get(b_) == "next(%s)" % g_ and \
-                asg.get(e_) == "%s[0].publish_time_epoch" % b_ and not walk_nodes(init[0].body, (ast.If, ast.Continue, ast.Try))
+            e_, b_, g_ = ap0[0].args[0].elts
+
+            def val(x):
+                if isinstance(x, ast.Name):
+                    return asg.get(x.id, utext(x))
+                return utext(x)
+            good = val(g_) == "%s.create_generator()()" % utext(init[0].target) and val(b_) == "next(%s)" % utext(g_) and \
+                val(e_) == "%s[0].publish_time_epoch" % utext(b_) and not walk_nodes(init[0].body, (ast.If, ast.Continue, ast.Try))
     rep.check(good, "R1", key(f, None, "every stream enters the merge with its first book"), f)
 
     # ------------------------------------------------------------------ R2 single stream / read loop / grouping
@@ -120,7 +150,9 @@ def run(ctx, rep):
         good = len(c) == 1 and utext(c[0].args[0]) == "events.MarketBookEvent(%s)" % utext(single[0].target)
     rep.check(good, "R2", key(f, None, "single-market branch: one _process_market_books per yielded batch"), f)
     grp = [lp for lp in walk_nodes(f.node.body, ast.For) if utext(lp.iter) == "self.streams"]
-    good = len(grp) == 1 and [utext(s) for s in sbody(grp[0].body)] == ["event_group_streams[stream.event_group].append(stream)"]
+    good = len(grp) == 1 and [utext(s) for s in sbody(grp[0].body)] in (
+        ["event_group_streams[stream.event_group].append(stream)"],
+        ["event_group_streams.setdefault(stream.event_group, []).append(stream)"])
     rep.check(good, "R2", key(f, None, "streams are grouped in registration order"), f)
     og = [lp for lp in walk_nodes(f.node.body, ast.For) if utext(lp.iter) == "event_group_streams.items()"]
     rep.check(len(og) == 1 and not loop_body_exits_early(og[0]), "R2", key(f, None, "every group is processed"), f)
